@@ -27,4 +27,4 @@ let c15_check (line : string) : string =
       (if failed = [] then "" else " failed=" ^ String.concat "," failed)
   | _ -> failwith "c15_check line"
 
-let families = [ ("c15_check", c15_check) ]
+let families = [ ("c15_check", c15_check); ("c15_hist", fun _ -> "-") ]
